@@ -528,6 +528,78 @@ Definition default_author (la : list (N * str)) (h_author_ : str) (l : N) : str 
   | None => h_author_
   end.
 
+(* ------------------------------------------------------------------ definitions used by the statements *)
+
+(* relational reading of last_listing: the LAST entry that lists the line and has a prompt record *)
+Definition listed (log : alog) foreign (e : entry) (line : N) : Prop :=
+  entry_contains e line = true /\ find_prompt log foreign (e_hash e) <> None.
+
+(* one line of output, as a function of the line's blame facts and the lookup path *)
+Definition line_out (o : opts) (notes : str -> option alog) foreign (path : str) (b : bline) : oline :=
+  match notes (bl_sha b) with
+  | Some log =>
+      match get_line_attribution log foreign path (bl_orig b) with
+      | Some (hash, p) => mkOline (bl_final b) (ai_name o hash p) (Some hash)
+      | None => mkOline (bl_final b) (human_name o (bl_author b)) None
+      end
+  | None => mkOline (bl_final b) (nolog_name o (bl_author b)) None
+  end.
+
+Definition json_opts (o : opts) : opts := mkOpts true (o_human_as_human o) (o_mark_unknown o) (o_split o).
+Definition tool_opts (o : opts) : opts := mkOpts false (o_human_as_human o) (o_mark_unknown o) (o_split o).
+
+Definition attribution_of (notes : str -> option alog) foreign (path : str) (b : bline) : option (list N * prompt) :=
+  match notes (bl_sha b) with
+  | Some log => get_line_attribution log foreign path (bl_orig b)
+  | None => None
+  end.
+
+(* the name shown for a line that is not AI *)
+Definition fallback_name (o : opts) (notes : str -> option alog) (b : bline) : list N :=
+  match notes (bl_sha b) with
+  | Some _ => human_name o (bl_author b)
+  | None => nolog_name o (bl_author b)
+  end.
+
+(* the known class: some line's path in its originating commit differs from the requested path *)
+Definition Known_C09 (path : str) (es : list gentry) : Prop :=
+  exists x, In x (glines es) /\ gl_filename x <> path.
+
+(* what --json lists and what the author column of the default format shows, for the same per-line facts *)
+Definition json_ai_lines (o : opts) notes foreign (path : str) (bl : list bline) : list (N * str) :=
+  let ols := map (line_out (json_opts o) notes foreign path) bl in
+  ai_lines (line_authors ols) (prompt_records ols).
+
+Definition default_column (o : opts) notes foreign (path : str) (bl : list bline) (b : bline) : str :=
+  default_author (line_authors (map (line_out (tool_opts o) notes foreign path) bl)) (bl_author b) (bl_final b).
+
+(* no human display name is literally one of the prompt hashes in play *)
+Definition names_not_hashes (o : opts) notes foreign (path : str) (bl : list bline) : Prop :=
+  forall b, In b bl ->
+    ~ In (fallback_name (json_opts o) notes b)
+         (prompt_records (map (line_out (json_opts o) notes foreign path) bl)).
+
+(* ------------------------------------------------------------------ -L arguments and their validation *)
+
+(* parse_line_range: `a,b` (split at the first comma) or a single number n, read as n,n *)
+Definition parse_line_range (s : str) : option (N * N) :=
+  match split_first c_comma s with
+  | Some (a, b) =>
+      match parse_u32 a, parse_u32 b with
+      | Some x, Some y => Some (x, y)
+      | _, _ => None
+      end
+  | None => match parse_u32 s with Some x => Some (x, x) | None => None end
+  end.
+
+Definition range_valid (total : N) (r : N * N) : bool :=
+  negb ((fst r =? 0) || (snd r =? 0) || (snd r <? fst r) || (total <? snd r)).
+
+(* prepare_blame_request: no -L means the whole file (1, total_lines); every range is validated *)
+Definition prepare_ranges (total : N) (requested : list (N * N)) : res (list (N * N)) :=
+  let rs := match requested with [] => [(1, total)] | _ => requested end in
+  if forallb (range_valid total) rs then Ok rs else Err.
+
 (* shape facts read from the source by the translator; the proofs file checks this is true *)
 Definition source_shape_ok : bool :=
   negb parser_reads_filename && overlay_uses_requested_path && attribution_first_file_match
